@@ -1243,7 +1243,7 @@ def statement_oracle_sample(ctx, c, r):
     n = 0
     t0 = _walltime.time()
     fam = [(h[0], h[1], h[2], h[3], None, {}) for h in boundary_histories()]
-    fam += [(x[1], x[2], x[3], x[4], None, dict(reclimit=x[7], pad=x[8])) for x in deep_cases(ctx)[::3]]
+    fam += [(x[1], x[2], x[3], x[4], None, dict(reclimit=x[7], pad=x[8])) for x in deep_cases(ctx)]
     for i in range(ctx.budget(600, 6000)):
         mode = ("base", "udp", "tcp")[i % 3]
         pruning, fd_limit, events, meaning = gen_history(r, mode, monotone=True)
@@ -1446,7 +1446,8 @@ def oracle_history(mode, pruning, fd_limit, events, meaning, reclimit=None, pad=
                   and all(times[reply[i]] <= times[reply[i + 1]] for i in range(len(reply) - 1)))
             if not ok:
                 return ("event %d: query %r at %d ms answered %r, the registrations (refresh time, server) say %r"
-                        % (k - 1, m["name"], now, reply, ans), "query-answer")
+                        % (k - 1, m["name"], now, reply, ans),
+                        "query-unanswered:unsendable-address-registered" if (reply is None and rec.get("rd")) else "query-answer")
         else:
             before, after = flat_table(prev_services), flat_table(rec["services"])
             strict = ("a connection that sends nothing" if e[0] == "s"
